@@ -5,6 +5,11 @@ claim("C17", "CFG dominance + decision-table extraction + who-may-write over go/
       "Not covered: the numeric invariant over histories, teardown dropping queued bytes, Sendfile ranges (not counted by design).",
       "DESIGN.md §4 C17")
 
+claim("C01", "lockset dataflow + CFG must-pass/dominance + feasibility + sibling-predicate agreement over go/ssa",
+      "Decides, on every path of Write/Writev/Sendfile/write/writev/flush in the linux build, the code shape that makes 'accepted => sent once, in order, whole' true: kernel writes and enqueues run under the connection mutex in the critical section of the closed test; after a short direct write every success path queues b[n:] (or nothing is left); stream-type predicates treat Unix like TCP; the vectored remainder loop is total and its enqueue sites feasible; success returns carry the input length; the queue copies the caller's slice; flush consumes head-first by the syscall count and pops index 0 only on completion after release; EINTR/EAGAIN never reach teardown; a failed Dup never reaches a success return. 48 obligation instances; three genuine defects found and repaired (known_findings.json).",
+      "Not covered: what the kernel does with the bytes, byte-for-byte equality at the peer, sendfile offset arithmetic beyond the matched pattern, peer pacing, UDP.",
+      "DESIGN.md §4 C01")
+
 PENDING = "check not built yet in this round (static rule tables are being added property by property; see DESIGN.md §4 for the planned obligations)"
-for pid in ["C01","C02","C03","C04","C05","C06","C07","C08","C09","C10","C11","C12","C13","C14","C15","C16","C18","C19","C20"]:
+for pid in ["C02","C03","C04","C05","C06","C07","C08","C09","C10","C11","C12","C13","C14","C15","C16","C18","C19","C20"]:
     na(pid, PENDING)
